@@ -56,7 +56,11 @@ from .. import core, tla
 
 CODEPOINT = 'http://www.w3.org/2005/xpath-functions/collation/codepoint'
 ALL_ACTS = {"fn1", "fn2", "translate", "substring", "concatx", "rejoin", "cps"}
-EXTRA_ACTS = {"uri", "doc", "coll"}
+EXTRA_ACTS = {"uri", "doc", "coll", "case", "edge", "ctx"}
+# case-mapping family: capital sigma, alpha, a, space, combining acute (case-ignorable), sharp s, I with dot,
+# dotless i, ligature ff, n preceded by apostrophe, alpha with ypogegrammeni, Dz with caron (titlecase), Georgian, Cherokee
+CASE_ALPHA = {931, 913, 97, 32, 769, 223, 304, 305, 64256, 329, 8064, 453, 7312, 5024}
+LIBXML2_WRONG_TOKENS = {'0.49999999999999994'}    # libxml2 rounds with floor(x + 0.5) in double arithmetic: 1 instead of 0
 ASCII_CI = 'http://www.w3.org/2005/xpath-functions/collation/html-ascii-case-insensitive'
 COLLATION_URI = {'codepoint': CODEPOINT, 'ascii-ci': ASCII_CI}
 ALPHA_C = {97, 65, 98, 128512}
@@ -93,17 +97,21 @@ def _parts(alpha, n, with_zero=True):
 
 def _tiers():
     quick = [('L3', dict(MaxLen=3, Alpha=A8, Alpha2=A2Q, AlphaM={97, 32, 128512}, GridName='small',
-                         Sweep=True, Part=EVERY, UriAlpha=URI_ALPHA, UriLen=4, DocLen=3, AlphaC=ALPHA_C, Acts=ALL_ACTS | EXTRA_ACTS))]
+                         Sweep=True, Part=EVERY, UriAlpha=URI_ALPHA, UriLen=4, DocLen=3, AlphaC=ALPHA_C, CaseAlpha=CASE_ALPHA, Acts=ALL_ACTS | EXTRA_ACTS))]
     thorough = []
     # all strings <= 3 over the full alphabet x all second strings <= 2 over 9 character classes x full grid
-    for i, p in enumerate(_parts(A12, 3)):
+    for i, p in enumerate(_parts(A12, 3, with_zero=False)):
         thorough.append((f'L3-full-p{i}', dict(MaxLen=3, Alpha=A12, Alpha2=A9T, AlphaM={97, 98, 32, 128512},
-                                              GridName='full', Sweep=(i == 0), Part=p, UriAlpha=URI_ALPHA, UriLen=5, DocLen=4, AlphaC=ALPHA_C,
-                                              Acts=(ALL_ACTS | EXTRA_ACTS if i == 0 else ALL_ACTS))))
+                                              GridName='full', Sweep=False, Part=p, UriAlpha=URI_ALPHA, UriLen=1, DocLen=0,
+                                              AlphaC=ALPHA_C, CaseAlpha=CASE_ALPHA, Acts=ALL_ACTS)))
+    # "", (), the sweep, the code point boundaries and the uri / doc / coll / case / edge / ctx families
+    thorough.append(('L3-families', dict(MaxLen=3, Alpha=A12, Alpha2=A9T, AlphaM={97, 98, 32, 128512}, GridName='full', Sweep=True,
+                                        Part={0} | ((SWEEP | LEGAL_BOUNDARY) - set(A12) - {65, 66}), UriAlpha=URI_ALPHA, UriLen=5,
+                                        DocLen=4, AlphaC=ALPHA_C, CaseAlpha=CASE_ALPHA, Acts=ALL_ACTS | EXTRA_ACTS)))
     # all strings <= 4 over 6 character classes x second strings <= 2 over 5 x full grid
     for i, p in enumerate(_parts(A6, 2, with_zero=False)):
         thorough.append((f'L4-p{i}', dict(MaxLen=4, Alpha=A6, Alpha2=A2T, AlphaM={97, 32, 128512},
-                                          GridName='full', Sweep=False, Part=p, UriAlpha=URI_ALPHA, UriLen=1, DocLen=0, AlphaC=ALPHA_C,
+                                          GridName='full', Sweep=False, Part=p, UriAlpha=URI_ALPHA, UriLen=1, DocLen=0, AlphaC=ALPHA_C, CaseAlpha=CASE_ALPHA,
                                           Acts=ALL_ACTS)))
     return {'quick': quick, 'thorough': thorough}
 
@@ -115,7 +123,7 @@ IN10_F2 = {'contains', 'starts-with', 'substring-before', 'substring-after', 'co
 COLLATION_F2 = {'contains', 'starts-with', 'ends-with', 'substring-before', 'substring-after', 'compare'}
 SPECIALS = {'INF', '-INF', 'NaN'}
 EXPECTED_ACTIONS = {'Fn1', 'Fn2', 'Translate', 'Substring2', 'Substring3', 'ConcatNum', 'ConcatNum10',
-                    'ConcatBool', 'CpToStr', 'Rejoin', 'CollFn2', 'CollFn1', 'CollTranslate', 'CollSubstring', 'DocFn1', 'DocFn2', 'DocTranslate', 'DocConcat3', 'DocSubstring'}
+                    'ConcatBool', 'CpToStr', 'Rejoin', 'CollFn2', 'CollFn1', 'CollTranslate', 'CollSubstring', 'SubstringE2', 'SubstringE3', 'CtxFn', 'CtxNum', 'CtxBool', 'DocCtx', 'DocFn1', 'DocFn2', 'DocTranslate', 'DocConcat3', 'DocSubstring'}
 
 
 # ---------------------------------------------------------------------------------------
@@ -153,12 +161,14 @@ def dec_var(e):
         return Decimal(e[1])
     if k == 'seq':
         return [dec_var(x) for x in e[1]]
+    if k == 'bool':
+        return bool(e[1])
     raise ValueError(k)
 
 
 def num_exact(tok: str):
     """xs:integer / xs:decimal spelling of a finite grid token"""
-    return ['int', tok] if '.' not in tok else ['dec', tok]
+    return ['int', tok] if '.' not in tok and 'e' not in tok else ['dec', tok]
 
 
 def template(action: str, args: tuple, sfx: str = ''):
@@ -183,6 +193,12 @@ def template(action: str, args: tuple, sfx: str = ''):
         return 'concat', f'concat($s,{"true()" if args[0] else "false()"})', {}, True
     if action == 'CpToStr':
         return 'codepoints-to-string', 'codepoints-to-string($s)', {}, False
+    if action == 'SubstringE2':
+        return 'substring', f'substring($s,{v("a")})', {'a' + sfx: ['dbl', args[0]]}, True
+    if action == 'SubstringE3':
+        return 'substring', f'substring($s,{v("a")},{v("b")})', {'a' + sfx: ['dbl', args[0]], 'b' + sfx: ['dbl', args[1]]}, True
+    if action in ('CtxFn', 'CtxNum', 'CtxBool'):
+        return args[0], f'{args[0]}()', {}, False
     if action == 'CollFn2':
         f, t, d, a = args
         if a == 'none':
@@ -282,14 +298,15 @@ def evaluate(expr: str, version: str, variables: dict, fresh: bool = False):
     pv, _, dc = version.partition('@')          # '3.1@ascii-ci': parser version @ default collation of the static context
     kw = {} if pv == '1.0' else {'default_collation': COLLATION_URI[dc or 'codepoint']}
     vs = {k: dec_var(e) for k, e in variables.items()}
+    item = vs.pop('.', 1)                      # '.' = the context item (an atomic value)
     try:
         if fresh:
-            r = elementpath.select(None, expr, item=1, parser=parsers()[pv], variables=vs, **kw)
+            r = elementpath.select(None, expr, item=item, parser=parsers()[pv], variables=vs, **kw)
         else:
             sel = _sel_cache.get((expr, version))
             if sel is None:
                 sel = _sel_cache[(expr, version)] = elementpath.Selector(expr, parser=parsers()[pv], **kw)
-            r = sel.select(None, item=1, variables=vs)
+            r = sel.select(None, item=item, variables=vs)
     except ElementPathError as e:
         return ('err', (e.code or '').split(':')[-1])
     except RecursionError:
@@ -544,6 +561,8 @@ def doc_expr(action: str, args: tuple) -> str:
         return 'concat({}, {}, {})'.format(*args)
     if action == 'DocSubstring':
         return 'substring({}, string-length({}))'.format(*args)
+    if action == 'DocCtx':                     # XPath 2.0+: the first node selected by the path is the context item
+        return f'({args[1]})[1]/{args[0]}()'
     raise ValueError(action)
 
 
@@ -564,11 +583,11 @@ def doc_trees(docs):
 
 def doc_features(action, args, docs_kids, version, tree, spelling, outcome):
     """docs_kids: the context elements involved (one for an item evaluation, all of them for a predicate)"""
-    paths = args[1:] if action in ('DocFn1', 'DocFn2') else args
+    paths = args[1:] if action in ('DocFn1', 'DocFn2', 'DocCtx') else args
     count = lambda kids, p: sum(1 for n in kids if n == p) if p in ('b', 'c', 'd') else 1   # noqa: E731
     multi = [any(count(k, p) >= 2 for k in docs_kids) for p in paths]
     empty = [any(count(k, p) == 0 for k in docs_kids) for p in paths]
-    return dict(fn=(args[0] if action in ('DocFn1', 'DocFn2') else action[3:].lower()), action=action,
+    return dict(fn=(args[0] if action in ('DocFn1', 'DocFn2', 'DocCtx') else action[3:].lower()), action=action,
                 parser=version, tree=tree, spelling=spelling, outcome=outcome,
                 multinode_arg=any(multi), multinode_nonlast_arg=any(multi[:-1]),
                 empty_nodeset_arg=any(empty), empty_nodeset_arg23=any(empty[1:]))
@@ -588,6 +607,22 @@ def doc_worker(job):
     for jno, (action, args) in enumerate(job):
         expr = doc_expr(action, args)
         exps_all = G['doc_exp'][(action, args)]
+        if action == 'DocCtx':                 # zero-argument forms on node context items (2.0+ path step)
+            for version, tree in (('2.0', 'etree'), ('3.1', 'lxml')):
+                sel = new_selector(expr, version)
+                for lo, gdocs in groups:
+                    root, xs = doc_trees(gdocs)[tree]
+                    for j, x in enumerate(xs):
+                        obs = run_selector(sel, root, raw=True, item=x)
+                        if obs[0] == 'raw':       # a path returns a sequence: one item (or none)
+                            obs = project(obs[1][0] if isinstance(obs[1], list) and len(obs[1]) == 1 else obs[1])
+                        n_eval += 1
+                        out = conforms(exps_all[lo + j], obs)
+                        if out is not None:
+                            feat = doc_features(action, args, [gdocs[j]], version, tree, 'item', out)
+                            case = dict(mode='doc', xml=doc_trees(gdocs)['xml'], expr=expr, parser=version, tree=tree, item_index=j)
+                            fails.append((feat, case, exps_all[lo + j], obs))
+            continue
         configs = (('1.0', 'etree'), ('1.0', 'lxml'), ('2.0-compat', 'etree' if jno % 2 else 'lxml'))
         sels = {version: new_selector(expr, version) for version in ('1.0', '2.0-compat')}
         for gno, (lo, gdocs) in enumerate(groups):
@@ -671,7 +706,8 @@ def features(action, args, fn, src, exp, outcome, version, spelling, inner):
     if action.startswith('Coll'):
         f['default_collation'] = args[-2] if action == 'CollFn2' else args[-1]
         f['collation_arg'] = args[-1] if action == 'CollFn2' else None
-    if action in ('Substring2', 'Substring3'):
+    if action in ('Substring2', 'Substring3', 'SubstringE2', 'SubstringE3'):
+        f['gig_arg'] = '1e300' in args
         f['nargs'] = len(args) + 1
         f['a_class'] = num_class(args[0])
         f['b_class'] = num_class(args[1]) if len(args) > 1 else None
@@ -691,7 +727,7 @@ def features(action, args, fn, src, exp, outcome, version, spelling, inner):
 G = {}     # 'states', 'edges', 'producers', 'has_out'
 
 
-def spellings(idx, src, action, args):
+def spellings(idx, src, action, args, exp_of=None):
     """-> list of (spelling, expr, variables, versions)"""
     fn, expr, vs, in10 = template(action, args)
     out = []
@@ -701,6 +737,18 @@ def spellings(idx, src, action, args):
     is_str = src['t'] == 'str'
     if action == 'ConcatNum10':
         return fn, [('plain', expr, vs, ['1.0'])] if is_str else []
+    if action in ('CtxFn', 'CtxNum', 'CtxBool'):
+        f = args[0]
+        item = srcv if action == 'CtxFn' else (['dbl', args[1]] if action == 'CtxNum' else ['bool', args[1]])
+        e = ['str', list(exp_of[1])] if exp_of[0] == 'str' else ['int', str(exp_of[1])]
+        return fn, [('ctx-item', expr, {'.': item}, [alt, other]),                       # select(None, 'f()', item=...)
+                    ('ctx-map', f'$x ! {f}()', {'x': item}, ['3.1']),                    # simple map operator
+                    ('ctx-pred', f'count($x[{f}() = $e])', {'x': item, 'e': e}, ['2.0', '3.1'])]   # predicate on an atomic
+    if action in ('SubstringE2', 'SubstringE3'):
+        ex = dict(vs)
+        for name, tok in zip('ab', args):
+            ex[name] = num_exact(tok)
+        return fn, [('plain', expr, vs, (['1.0'] if is_str else []) + ['2.0', '3.1']), ('exact', expr, ex, [alt])]
     if action.startswith('Coll'):
         d = args[-2] if action == 'CollFn2' else args[-1]
         return fn, [('plain', expr, vs, [f'{alt}@{d}', f'{other}@{d}'])]
@@ -739,10 +787,10 @@ def worker(job):
         if src['t'] == 'doc':
             continue
         exp = norm_expected(dst)
-        fn, sps = spellings(idx, src, action, args)
+        fn, sps = spellings(idx, src, action, args, exp)
         # chains of depth 2: the source spelled as the call that produced it along another edge
         prods = producers.get(s)
-        if prods and action != 'ConcatNum10' and not action.startswith('Coll') and idx % 4 in (0, 3):
+        if prods and action != 'ConcatNum10' and not action.startswith(('Coll', 'Ctx', 'SubstringE')) and idx % 4 in (0, 3):
             ps, pact, pargs = prods[idx % len(prods)]
             psrc = states[ps]['cur']
             pfn, pexpr, pvs, pin10 = template(pact, pargs, '0')
@@ -764,7 +812,7 @@ def worker(job):
                     n_nested += 1
         lx_done = False
         for spelling, expr, vs, versions in sps:
-            if '1.0' in versions and not lx_done and spelling == 'plain':
+            if '1.0' in versions and not lx_done and spelling == 'plain' and not (LIBXML2_WRONG_TOKENS & set(map(str, args))):
                 lx_done = True
                 lx = libxml2(expr, vs)
                 n_lx += lx is not None
@@ -774,7 +822,7 @@ def worker(job):
                 fresh = (idx + len(expr)) % 16 == 0
                 obs = evaluate(expr, v, vs, fresh=fresh)
                 n_eval += 1
-                out = conforms(exp, obs)
+                out = conforms(('int', 1) if spelling == 'ctx-pred' else exp, obs)
                 if out is not None:
                     again = evaluate(expr, v, vs, fresh=not fresh)
                     inner = spelling.split(':', 1)[1] if spelling.startswith('nested:') else None
@@ -796,6 +844,10 @@ def spec_oracles(g) -> list[str]:
             tok = args[0]
             if text(dst['s']) != tok or not (float(tok) == float(tok) or tok == 'NaN'):
                 msgs.append(f'Lex({tok}) = {text(dst["s"])!r}')
+        elif action == 'Fn1' and args[0] in ('upper-case', 'lower-case') and len(src['s']) > 1:
+            want = text(src['s']).upper() if args[0] == 'upper-case' else text(src['s']).lower()
+            if text(dst['s']) != want:
+                msgs.append(f'{args[0]}({text(src["s"])!r}) spec {text(dst["s"])!r} python (Unicode default case conversion) {want!r}')
         elif action == 'Fn1' and len(src['s']) == 1:
             c = src['s'][0]
             f = args[0]
@@ -854,7 +906,9 @@ def replay_history(rec: dict) -> int:
         print('document  :', case['xml'][:300])
         if mode == 'doc':
             j = case['item_index']
-            obs = run_selector(sel, root, item=xs[j])
+            obs = run_selector(sel, root, raw=True, item=xs[j])
+            if obs[0] == 'raw':
+                obs = project(obs[1][0] if isinstance(obs[1], list) and len(obs[1]) == 1 and '/' in case['expr'] else obs[1])
             want = _tup(rec['expected'])
             print(f'context   : x[{j + 1}]  expected {want}  observed {obs}')
             bad = conforms(want, obs) is not None
@@ -903,7 +957,7 @@ def run(chk: core.Check) -> None:
     for name, consts in TIERS[chk.tier]:
         wd = os.path.join(chk.scratch, name)
         dot = os.path.join(wd, 'g.dot')
-        cfg = tla.cfg_text(consts, invariants=['Laws', 'LawCps', 'LawsUri', 'LawDoc', 'LawColl'])
+        cfg = tla.cfg_text(consts, invariants=['Laws', 'LawCps', 'LawsUri', 'LawDoc', 'LawColl', 'LawsCase', 'LawEdge'])
         r = tla.require_ok(tla.run_tlc('Strings', cfg, wd, dump_dot=dot), f'Strings/{name}', min_distinct=100)
         chk.model(f'Strings/{name}', r)
         g = tla.load_dot(dot)
@@ -917,7 +971,7 @@ def run(chk: core.Check) -> None:
         has_out = {e[0] for e in g.edges if not e[2].startswith('Doc')}
         producers: dict[int, list] = {}
         for s, d, a, args in g.edges:
-            if d in has_out and s != d and a != 'ConcatNum10' and not a.startswith(('Doc', 'Coll')):
+            if d in has_out and s != d and a != 'ConcatNum10' and not a.startswith(('Doc', 'Coll', 'Ctx', 'SubstringE')):
                 lst = producers.setdefault(d, [])
                 fnm = (a, args[0] if a in ('Fn1', 'Fn2') else None)
                 if len(lst) < 3 and all((x[1], x[2][0] if x[1] in ('Fn1', 'Fn2') else None) != fnm for x in lst):
@@ -933,7 +987,7 @@ def run(chk: core.Check) -> None:
         chk.add('traces_validated_against_impl', n)
         chk.add('distinct_nontrivial', len(nontrivial))
         nt_edges = [e for e in g.edges[:: max(1, n // 4000)] if not trivial(g.states[e[0]]['cur'], g.states[e[1]]['cur'])]
-        for s, d, a, args in [e for e in nt_edges if not e[2].startswith(('Doc', 'Coll'))][:: max(1, len(nt_edges) // 5)][:5]:
+        for s, d, a, args in [e for e in nt_edges if not e[2].startswith(('Doc', 'Coll', 'Ctx', 'SubstringE'))][:: max(1, len(nt_edges) // 5)][:5]:
             fn, expr, vs, _ = template(a, args)
             chk.sample(dict(expr=expr, variables={k: dec_var(e) for k, e in dict(vs, s=enc_value(g.states[s]['cur'])).items()},
                             expected=norm_expected(g.states[d]['cur'])))
